@@ -2,7 +2,7 @@
   C12 — EEPROM reads return exactly the stored bytes and parse to what they encode.
   Property theorems only; helper lemmas live in EcModel/Lemmas.
 -/
-import EcModel.Lemmas.EepromParse
+import EcModel.Lemmas.EepromPdo
 
 namespace Ec.C12
 open Ec Ec.Eeprom Ec.EepromSpec
@@ -491,6 +491,200 @@ theorem find_string_one_past_fixed :
     (findString .checked p 16 4).1 = .ok none := by
   decide
 
+/-! ## PDO lists with bit lengths -/
+
+/-- **PDO lists** (`maindevice_read_pdos` = TxPDO, category 50; `maindevice_write_pdos` = RxPDO, category 51).
+    For EVERY list of at most 64 well-formed PDO descriptions (each: index, sync manager, DC sync byte, name
+    string index, flags and up to 255 entries of index, sub-index, name string index, data type, bit length,
+    flags — 8 bytes per PDO header and 8 per entry, ETG2010 Table 14) stored as a TxPDO or RxPDO category
+    anywhere in the category list (`pre` and `post` arbitrary, unknown vendor categories included), any chunk
+    size ≥ 4 and both build modes: the parser returns exactly one `Pdo` per description, in order, carrying its
+    index, its number of entries, its sync manager and the SUM of its entries' bit lengths (everything the real
+    `Pdo` keeps); no error, no panic — the `u16` sum cannot overflow (≤ 255 · 255). -/
+theorem pdos_roundtrip (m : Mode) (p : Prov) (hcs : 4 ≤ p.cs) (hdr : List Nat) (pre post : List Cat)
+    (cat : Nat) (hdir : cat = 50 ∨ cat = 51) (ds : List PdoDesc)
+    (himg : HoldsImage p (encodeSii hdr (pre ++ ⟨cat, ds.flatMap encPdo⟩ :: post))) (hhdr : hdr.length = 128)
+    (hpre : ∀ x ∈ pre, x.WF ∧ catOf x.type ≠ cat ∧ catOf x.type ≠ Gen.Eeprom.CAT_END)
+    (hds : ∀ d ∈ ds, d.WF) (hn : ds.length ≤ 64)
+    (hne : empties pre + (if ds.length = 0 then 1 else 0) < 32)
+    (hsize : 128 + (encCats pre).length + 4 + (ds.flatMap encPdo).length < 131072) :
+    (pdos m p cat).1
+      = .ok (ds.map fun d => ⟨d.index, d.entries.length, d.sm, (d.entries.map fun e => e.bitLen).sum⟩) := by
+  have hc : catOf cat = cat ∧ cat < 65536 := by rcases hdir with rfl | rfl <;> decide
+  exact pdos_enc_at m p hcs cat hc.1 hc.2 pre ds _ (holds_split himg hhdr) hpre hds
+    (by simpa [Gen.Eeprom.CAP_PDOS] using hn) hne hsize
+
+/-- **Above the capacity**: a category with more than 64 (well-formed) PDOs is refused with `Capacity(Pdo)` —
+    in both build modes, never a panic, never a truncated list. (The 65th PDO's entries are read first; the
+    `push` that follows fails.) -/
+theorem pdos_over_capacity (m : Mode) (p : Prov) (hcs : 4 ≤ p.cs) (hdr : List Nat) (pre post : List Cat)
+    (cat : Nat) (hdir : cat = 50 ∨ cat = 51) (ds : List PdoDesc)
+    (himg : HoldsImage p (encodeSii hdr (pre ++ ⟨cat, ds.flatMap encPdo⟩ :: post))) (hhdr : hdr.length = 128)
+    (hpre : ∀ x ∈ pre, x.WF ∧ catOf x.type ≠ cat ∧ catOf x.type ≠ Gen.Eeprom.CAT_END)
+    (hds : ∀ d ∈ ds, d.WF) (hn : 64 < ds.length) (hne : empties pre < 32)
+    (hsize : 128 + (encCats pre).length + 4 + (ds.flatMap encPdo).length < 131072) :
+    (pdos m p cat).1 = .err (.capacity 2) := by
+  have hc : catOf cat = cat ∧ cat < 65536 := by rcases hdir with rfl | rfl <;> decide
+  exact pdos_over_at m p hcs cat hc.1 hc.2 pre ds _ (holds_split himg hhdr) hpre hds
+    (by simpa [Gen.Eeprom.CAP_PDOS] using hn) hne hsize
+
+/-- **No PDO category of that direction**: the empty list (EK1100-style devices). -/
+theorem pdos_absent (m : Mode) (p : Prov) (hcs : 4 ≤ p.cs) (hdr : List Nat) (cats : List Cat)
+    (cat : Nat) (hdir : cat = 50 ∨ cat = 51)
+    (himg : HoldsImage p (encodeSii hdr cats)) (hhdr : hdr.length = 128)
+    (hall : ∀ x ∈ cats, x.WF ∧ catOf x.type ≠ cat ∧ catOf x.type ≠ Gen.Eeprom.CAT_END)
+    (hne : empties cats < 32) (hsize : 128 + (encCats cats).length + 4 < 131072) :
+    (pdos m p cat).1 = .ok [] := by
+  have hcat := category_absent m p hcs hdr cats cat himg hhdr hall
+    (by rcases hdir with rfl | rfl <;> decide) hne hsize
+  unfold pdos items
+  rw [bind_fst_ok _ ((bind_fst_ok _ hcat).trans (rfl : _ = Outcome.ok (⟨0, 0⟩ : Range)))]
+  have := pdoLoop_enc m p (by omega) 0 (by omega) [] ⟨0, 0⟩ [] (Gen.Eeprom.CAP_PDOS + 2)
+    (fun _ h => by simp at h) (by simp [Holds]) (by simp) (by simp) (by simp) (by simp)
+  simpa using this
+
+/-! ## The General category, name and description -/
+
+/-- **General category** (type 30). For every well-formed description stored anywhere in the category list, the
+    parser recovers every field `SiiGeneral` has: the four string indices, the CoE detail bits, the FoE and EoE
+    enables (any non-zero byte is "enabled"), the flags, the EBus current (as the `u16` pattern of the `i16`),
+    the four port kinds (values 5..15 read as unused) and the physical memory address. The reserved bytes and
+    the tail behind byte 18 are ignored. -/
+theorem general_roundtrip (m : Mode) (p : Prov) (hcs : 4 ≤ p.cs) (hdr : List Nat) (pre post : List Cat)
+    (g : GeneralDesc)
+    (himg : HoldsImage p (encodeSii hdr (pre ++ ⟨30, encGeneral g⟩ :: post))) (hhdr : hdr.length = 128)
+    (hpre : ∀ x ∈ pre, x.WF ∧ catOf x.type ≠ 30 ∧ catOf x.type ≠ Gen.Eeprom.CAT_END)
+    (hg : g.WF) (hne : empties pre < 32)
+    (hsize : 128 + (encCats pre).length + 4 + (encGeneral g).length < 131072) :
+    (general m p).1
+      = .ok { groupIdx := g.groupIdx, imageIdx := g.imageIdx, orderIdx := g.orderIdx, nameIdx := g.nameIdx,
+              coeDetails := g.coeDetails, foe := decide (g.foe ≠ 0), eoe := decide (g.eoe ≠ 0), flags := g.flags,
+              ebusCurrent := g.ebusCurrent,
+              ports := [portKind g.port0, portKind g.port1, portKind g.port2, portKind g.port3],
+              physAddr := g.physAddr } :=
+  general_enc_at m p hcs pre g _ (holds_split himg hhdr) hpre hg hne hsize
+
+/-- **No General category**: `general` answers `NoCategory`. -/
+theorem general_absent (m : Mode) (p : Prov) (hcs : 4 ≤ p.cs) (hdr : List Nat) (cats : List Cat)
+    (himg : HoldsImage p (encodeSii hdr cats)) (hhdr : hdr.length = 128)
+    (hall : ∀ x ∈ cats, x.WF ∧ catOf x.type ≠ 30 ∧ catOf x.type ≠ Gen.Eeprom.CAT_END)
+    (hne : empties cats < 32) (hsize : 128 + (encCats cats).length + 4 < 131072) :
+    (general m p).1 = .err .noCategory := by
+  have hcat := category_absent m p hcs hdr cats 30 himg hhdr hall (by decide) hne hsize
+  unfold general
+  simp only [Gen.Eeprom.CAT_GENERAL]
+  rw [bind_fst_ok _ hcat]
+  rfl
+
+/-- **Name** (`SubDevice::name`, `device_name`): the cleaned string that the General category's ORDER index
+    (ETG2010 Table 7 `OrderIdx`, which is what the code documents as the device name) designates in the Strings
+    category. The two categories may come in either order, anywhere in the category list: the same list is split
+    once around General (`pre`, `post`) and once around Strings (`preS`, `postS`). -/
+theorem name_roundtrip (m : Mode) (p : Prov) (hcs : 4 ≤ p.cs) (hdr : List Nat) (cats : List Cat)
+    (himg : HoldsImage p (encodeSii hdr cats)) (hhdr : hdr.length = 128)
+    (pre post : List Cat) (g : GeneralDesc) (hG : cats = pre ++ ⟨30, encGeneral g⟩ :: post)
+    (hpre : ∀ x ∈ pre, x.WF ∧ catOf x.type ≠ 30 ∧ catOf x.type ≠ Gen.Eeprom.CAT_END)
+    (hg : g.WF) (hne : empties pre < 32)
+    (hsize : 128 + (encCats pre).length + 4 + (encGeneral g).length < 131072)
+    (preS postS : List Cat) (before : List (List Nat)) (t : List Nat) (after : List (List Nat)) (pad : List Nat)
+    (N : Nat)
+    (hS : cats = preS ++
+      ⟨10, (before ++ t :: after).length :: ((before ++ t :: after).flatMap encStr) ++ pad⟩ :: postS)
+    (hpreS : ∀ x ∈ preS, x.WF ∧ catOf x.type ≠ 10 ∧ catOf x.type ≠ Gen.Eeprom.CAT_END)
+    (hwf : (⟨10, (before ++ t :: after).length :: ((before ++ t :: after).flatMap encStr) ++ pad⟩ : Cat).WF)
+    (hneS : empties preS < 32) (hN : t.length ≤ N)
+    (hsizeS : 128 + (encCats preS).length + 4 +
+      ((before ++ t :: after).length :: ((before ++ t :: after).flatMap encStr) ++ pad).length < 131072)
+    (hidx : g.orderIdx = before.length + 1) :
+    (deviceName m p N).1 = .ok (some (cleanString t)) := by
+  have hgen := general_enc_at m p hcs pre g _ (holds_split (hG ▸ himg) hhdr) hpre hg hne hsize
+  have hstr := find_string_roundtrip m p hcs hdr preS postS before t after pad N (hS ▸ himg) hhdr hpreS hwf hneS hN
+    hsizeS
+  refine deviceName_of_general m p N _ _ hgen ?_
+  show (findString m p N g.orderIdx).1 = _
+  rw [hidx]; exact hstr
+
+/-- **Description** (`SubDevice::description`, `device_description`): the cleaned string that the General
+    category's NAME index designates in the Strings category; categories in either order, as above. -/
+theorem description_roundtrip (m : Mode) (p : Prov) (hcs : 4 ≤ p.cs) (hdr : List Nat) (cats : List Cat)
+    (himg : HoldsImage p (encodeSii hdr cats)) (hhdr : hdr.length = 128)
+    (pre post : List Cat) (g : GeneralDesc) (hG : cats = pre ++ ⟨30, encGeneral g⟩ :: post)
+    (hpre : ∀ x ∈ pre, x.WF ∧ catOf x.type ≠ 30 ∧ catOf x.type ≠ Gen.Eeprom.CAT_END)
+    (hg : g.WF) (hne : empties pre < 32)
+    (hsize : 128 + (encCats pre).length + 4 + (encGeneral g).length < 131072)
+    (preS postS : List Cat) (before : List (List Nat)) (t : List Nat) (after : List (List Nat)) (pad : List Nat)
+    (N : Nat)
+    (hS : cats = preS ++
+      ⟨10, (before ++ t :: after).length :: ((before ++ t :: after).flatMap encStr) ++ pad⟩ :: postS)
+    (hpreS : ∀ x ∈ preS, x.WF ∧ catOf x.type ≠ 10 ∧ catOf x.type ≠ Gen.Eeprom.CAT_END)
+    (hwf : (⟨10, (before ++ t :: after).length :: ((before ++ t :: after).flatMap encStr) ++ pad⟩ : Cat).WF)
+    (hneS : empties preS < 32) (hN : t.length ≤ N)
+    (hsizeS : 128 + (encCats preS).length + 4 +
+      ((before ++ t :: after).length :: ((before ++ t :: after).flatMap encStr) ++ pad).length < 131072)
+    (hidx : g.nameIdx = before.length + 1) :
+    (deviceDescription m p N).1 = .ok (some (cleanString t)) := by
+  have hgen := general_enc_at m p hcs pre g _ (holds_split (hG ▸ himg) hhdr) hpre hg hne hsize
+  have hstr := find_string_roundtrip m p hcs hdr preS postS before t after pad N (hS ▸ himg) hhdr hpreS hwf hneS hN
+    hsizeS
+  refine deviceDescription_of_general m p N _ _ hgen ?_
+  show (findString m p N g.nameIdx).1 = _
+  rw [hidx]; exact hstr
+
+/-- **Absent, index 0**: a General category whose order (resp. name) index is 0 — "no string" in EtherCAT —
+    gives no name (resp. no description), whatever the Strings category holds. -/
+theorem name_description_index_zero (m : Mode) (p : Prov) (hcs : 4 ≤ p.cs) (hdr : List Nat) (pre post : List Cat)
+    (g : GeneralDesc) (N : Nat)
+    (himg : HoldsImage p (encodeSii hdr (pre ++ ⟨30, encGeneral g⟩ :: post))) (hhdr : hdr.length = 128)
+    (hpre : ∀ x ∈ pre, x.WF ∧ catOf x.type ≠ 30 ∧ catOf x.type ≠ Gen.Eeprom.CAT_END)
+    (hg : g.WF) (hne : empties pre < 32)
+    (hsize : 128 + (encCats pre).length + 4 + (encGeneral g).length < 131072) :
+    (g.orderIdx = 0 → (deviceName m p N).1 = .ok none) ∧
+    (g.nameIdx = 0 → (deviceDescription m p N).1 = .ok none) := by
+  have hgen := general_enc_at m p hcs pre g _ (holds_split himg hhdr) hpre hg hne hsize
+  constructor
+  · intro h0
+    refine deviceName_of_general m p N _ _ hgen ?_
+    show (findString m p N g.orderIdx).1 = _
+    rw [h0, findString_zero]; rfl
+  · intro h0
+    refine deviceDescription_of_general m p N _ _ hgen ?_
+    show (findString m p N g.nameIdx).1 = _
+    rw [h0, findString_zero]; rfl
+
+/-- **Absent, no General category**: the name is absent; the description is the ERROR `NoCategory` (the code
+    uses `ignore_no_category` for the name only; `SubDevice::description` maps this error to an empty string
+    one level up). -/
+theorem name_description_no_general (m : Mode) (p : Prov) (hcs : 4 ≤ p.cs) (hdr : List Nat) (cats : List Cat)
+    (N : Nat) (himg : HoldsImage p (encodeSii hdr cats)) (hhdr : hdr.length = 128)
+    (hall : ∀ x ∈ cats, x.WF ∧ catOf x.type ≠ 30 ∧ catOf x.type ≠ Gen.Eeprom.CAT_END)
+    (hne : empties cats < 32) (hsize : 128 + (encCats cats).length + 4 < 131072) :
+    (deviceName m p N).1 = .ok none ∧ (deviceDescription m p N).1 = .err .noCategory := by
+  have hgen := general_absent m p hcs hdr cats himg hhdr hall hne hsize
+  constructor
+  · unfold deviceName
+    rw [bind_fst_ok _ (ignoreNoCategory_nocat hgen)]
+    rfl
+  · unfold deviceDescription
+    rw [bind_eq_err _ hgen]
+
+/-- **Absent, no Strings category**: with a General category but no Strings category anywhere, name and
+    description are absent whatever the indices say. -/
+theorem name_description_no_strings (m : Mode) (p : Prov) (hcs : 4 ≤ p.cs) (hdr : List Nat) (pre post : List Cat)
+    (g : GeneralDesc) (N : Nat)
+    (himg : HoldsImage p (encodeSii hdr (pre ++ ⟨30, encGeneral g⟩ :: post))) (hhdr : hdr.length = 128)
+    (hpre : ∀ x ∈ pre, x.WF ∧ catOf x.type ≠ 30 ∧ catOf x.type ≠ Gen.Eeprom.CAT_END)
+    (hg : g.WF) (hne : empties pre < 32)
+    (hsize : 128 + (encCats pre).length + 4 + (encGeneral g).length < 131072)
+    (hall : ∀ x ∈ pre ++ ⟨30, encGeneral g⟩ :: post,
+      x.WF ∧ catOf x.type ≠ 10 ∧ catOf x.type ≠ Gen.Eeprom.CAT_END)
+    (hneS : empties (pre ++ ⟨30, encGeneral g⟩ :: post) < 32)
+    (hsizeS : 128 + (encCats (pre ++ ⟨30, encGeneral g⟩ :: post)).length + 4 < 131072) :
+    (deviceName m p N).1 = .ok none ∧ (deviceDescription m p N).1 = .ok none := by
+  have hgen := general_enc_at m p hcs pre g _ (holds_split himg hhdr) hpre hg hne hsize
+  have hcat := category_absent m p hcs hdr _ 10 himg hhdr hall (by decide) hneS hsizeS
+  exact ⟨deviceName_of_general m p N _ _ hgen (findString_no_strings m p N _ hcat),
+    deviceDescription_of_general m p N _ _ hgen (findString_no_strings m p N _ hcat)⟩
+
 /-! ### non-vacuity -/
 
 example : (readSeq .checked ⟨fun a => a, 4⟩ ⟨3, 10⟩ [2, 0, 4, 9, 1]).1
@@ -547,5 +741,61 @@ example : (fmmus .checked demoProv).1 = .ok [1, 2, 3, 0] := by decide
 example : (findString .checked demoProv 64 1).1 = .ok (some [0x45, 0x4c]) := by decide
 example : (findString .checked demoProv 64 2).1 = .ok (some [63]) := by decide
 example : (identity .checked demoProv).1 = .ok (117901063, 117901063, 117901063, 117901063) := by decide
+
+/-! ### non-vacuity of the PDO / General / name / description round trips -/
+
+/-- Two TxPDOs of 2 and 3 entries (bit lengths 1+7 and 16+32+255), with name indices, a DC sync byte, flags. -/
+def demoTxPdos : List PdoDesc :=
+  [⟨0x1a00, 3, 0, 5, 0x0011, [⟨0x6000, 1, 6, 1, 1, 0⟩, ⟨0x6000, 2, 7, 1, 7, 0⟩]⟩,
+   ⟨0x1a01, 3, 1, 8, 0x8000, [⟨0x6010, 1, 0, 6, 16, 0⟩, ⟨0x6010, 2, 0, 7, 32, 0xffff⟩, ⟨0, 0, 0, 0, 255, 0⟩]⟩]
+
+/-- One RxPDO without entries and one with a single 8-bit entry. -/
+def demoRxPdos : List PdoDesc := [⟨0x1600, 2, 0, 0, 0, []⟩, ⟨0x1601, 2, 0, 0, 0, [⟨0x7000, 1, 0, 5, 8, 0⟩]⟩]
+
+/-- Order index 1 ("EL"), name index 2 (one non-ASCII byte), EBus current -2000, ports EBUS / unused / MII / 9. -/
+def demoGeneral : GeneralDesc :=
+  { groupIdx := 2, imageIdx := 0, orderIdx := 1, nameIdx := 2, reserved4 := 0xaa, coeDetails := 0x23, foe := 0,
+    eoe := 0xff, soeChannels := 1, ds402Channels := 2, sysmanClass := 3, flags := 0x11, ebusCurrent := 63536,
+    port0 := 3, port1 := 0, port2 := 1, port3 := 9, physAddr := 0x1234, tail := List.replicate 14 0 }
+
+/-- Strings first, TxPDO, a vendor category, General BEHIND the PDOs, RxPDO. -/
+def demoCats2 : List Cat :=
+  [⟨10, [2, 2, 0x45, 0x4c, 1, 0xb5]⟩, ⟨50, demoTxPdos.flatMap encPdo⟩, ⟨0x1234, [9, 9]⟩,
+   ⟨30, encGeneral demoGeneral⟩, ⟨51, demoRxPdos.flatMap encPdo⟩]
+
+def demoProv2 : Prov := ⟨imgRd (encodeSii (List.replicate 128 7) demoCats2) 255, 4⟩
+
+example : (∀ d ∈ demoTxPdos, d.WF) ∧ (∀ d ∈ demoRxPdos, d.WF) ∧ demoGeneral.WF := by decide
+example : (pdos .checked demoProv2 50).1 = .ok [⟨0x1a00, 2, 3, 8⟩, ⟨0x1a01, 3, 3, 303⟩] := by decide
+example : (pdos .wrapping demoProv2 51).1 = .ok [⟨0x1600, 0, 2, 0⟩, ⟨0x1601, 1, 2, 8⟩] := by decide
+example : (pdos .checked demoProv 50).1 = .ok [] := by decide
+example : (general .checked demoProv2).1
+    = .ok ⟨2, 0, 1, 2, 0x23, false, true, 0x11, 63536, [3, 0, 1, 0], 0x1234⟩ := by decide
+example : (general .checked demoProv).1 = .err .noCategory := by decide
+example : (deviceName .checked demoProv2 64).1 = .ok (some [0x45, 0x4c]) := by decide
+example : (deviceDescription .wrapping demoProv2 64).1 = .ok (some [63]) := by decide
+example : (deviceName .checked demoProv 64).1 = .ok none := by decide
+example : (deviceDescription .checked demoProv 64).1 = .err .noCategory := by decide
+
+/-- The hypotheses of `pdos_roundtrip` are satisfiable: the theorem itself, instantiated on the image above. -/
+example : (pdos .checked demoProv2 50).1 = .ok [⟨0x1a00, 2, 3, 8⟩, ⟨0x1a01, 3, 3, 303⟩] :=
+  pdos_roundtrip .checked demoProv2 (by decide) (List.replicate 128 7) [⟨10, [2, 2, 0x45, 0x4c, 1, 0xb5]⟩]
+    [⟨0x1234, [9, 9]⟩, ⟨30, encGeneral demoGeneral⟩, ⟨51, demoRxPdos.flatMap encPdo⟩] 50 (Or.inl rfl) demoTxPdos
+    (holdsImage_imgRd _ _ _) (by simp) (by decide) (by decide) (by decide) (by decide) (by decide)
+
+/-- ... and those of `name_roundtrip` (General behind Strings; the same list split twice). -/
+example : (deviceName .checked demoProv2 64).1 = .ok (some (cleanString [0x45, 0x4c])) :=
+  name_roundtrip .checked demoProv2 (by decide) (List.replicate 128 7) demoCats2 (holdsImage_imgRd _ _ _) (by simp)
+    [⟨10, [2, 2, 0x45, 0x4c, 1, 0xb5]⟩, ⟨50, demoTxPdos.flatMap encPdo⟩, ⟨0x1234, [9, 9]⟩]
+    [⟨51, demoRxPdos.flatMap encPdo⟩] demoGeneral rfl (by decide) (by decide) (by decide) (by decide)
+    [] [⟨50, demoTxPdos.flatMap encPdo⟩, ⟨0x1234, [9, 9]⟩, ⟨30, encGeneral demoGeneral⟩,
+      ⟨51, demoRxPdos.flatMap encPdo⟩] [] [0x45, 0x4c] [[0xb5]] [] 64 rfl (by decide) (by decide) (by decide)
+    (by decide) (by decide) rfl
+
+-- 65 PDOs (without entries): one more than the `heapless::Vec` holds.
+set_option maxRecDepth 100000 in
+example : (pdos .checked
+    ⟨imgRd (encodeSii (List.replicate 128 0) [⟨50, (List.replicate 65 (⟨0x1a00, 0, 0, 0, 0, []⟩ : PdoDesc)).flatMap encPdo⟩]) 255, 8⟩
+    50).1 = .err (.capacity 2) := by decide
 
 end Ec.C12
